@@ -1,7 +1,8 @@
 /-
   C02 — draft selection: which `$schema` values select draft-07, which are refused, and what changes under draft-07
   (`$ref` siblings ignored, array-form `items` / `additionalItems`, `dependencies`).
-  Property theorems only (helper lemmas: JSV/Proofs/InvDraft.lean, JSV/Proofs/ResDraft.lean).
+  Property theorems only (helper lemmas: JSV/Proofs/InvDraft.lean, JSV/Proofs/ResDraft.lean; section "algebraic laws":
+  JSV/Proofs/SpecLaws*.lean).
 -/
 import JSV.Proofs.InvDraft
 import JSV.Proofs.ResDraft
